@@ -68,6 +68,9 @@ def main():
                 if not hit:
                     fails += 1
                     print('\n'.join(out.splitlines()[-6:]))
+            elif m['kind'] == 'known-miss':
+                # a confirmed breaking change that no rule decides (documented in DESIGN.md); reported, not counted as unexpected
+                print('%-7s %-6s %-50s' % ('missed*' if r.returncode == 0 else 'CAUGHT?', m['check'], m['name']))
             else:
                 ok = r.returncode == 0
                 print('%-7s %-6s %-50s %s' % ('silent' if ok else 'ALARM', m['check'], m['name'], '' if ok else '(exit %d)' % r.returncode))
